@@ -683,6 +683,16 @@ func (x *Orders) CheckBasic() (err ErrorI) {
 		if lock.BuyerChainDeadline == 0 {
 			return ErrInvalidBuyerDeadline()
 		}
+		// ensure the order id fits in a single (length prefixed) key segment
+		if len(lock.OrderId) > math.MaxUint8 {
+			return ErrInvalidArgument()
+		}
+	}
+	// an order id is one segment of a length prefixed state key: longer ids would produce a corrupt key
+	for _, id := range append(append([][]byte{}, x.ResetOrders...), x.CloseOrders...) {
+		if len(id) > math.MaxUint8 {
+			return ErrInvalidArgument()
+		}
 	}
 	// ensure no duplicates in the resets
 	deDuplicator := NewDeDuplicator[string]()
